@@ -123,7 +123,7 @@ func VerifC07SubFunding() {
 }
 
 // NumSubSettlementDev is the number of deviations in VerifC07SubSettlement.
-const NumSubSettlementDev = 6
+const NumSubSettlementDev = 8
 
 // VerifC07SubSettlement: the client's sub-channel S became final with balances
 // fin; it expects the parent update that returns S's funds.
@@ -132,7 +132,13 @@ func VerifC07SubSettlement() {
 	S := gen.ID()
 	fin := gen.Bals(2)
 	amount := new(big.Int).Add(fin[0], fin[1])
+	dev := pickDev(NumSubSettlementDev)
 	s := newSituationWith(func(cur *channel.State) {
+		if dev >= 6 { // deviations on the order / multiplicity of the others need two of them
+			for len(cur.Locked) < 2 {
+				cur.Locked = append(cur.Locked, channel.SubAlloc{ID: gen.ID(), Bals: gen.Bals(1), IndexMap: []channel.Index{}})
+			}
+		}
 		sa := channel.SubAlloc{ID: S, Bals: []channel.Bal{amount}, IndexMap: []channel.Index{}}
 		if rt.NondetBool() {
 			cur.Locked = append(cur.Locked, sa)
@@ -156,8 +162,14 @@ func VerifC07SubSettlement() {
 		}
 	}
 	to.Locked = (&channel.Allocation{Locked: want}).Clone().Locked
-	switch pickDev(NumSubSettlementDev) {
+	switch dev {
 	case 0:
+	case 6: // the other sub-allocations in another order
+		rt.Assume(len(to.Locked) == 2) // (their ids differ from S)
+		to.Locked[0], to.Locked[1] = to.Locked[1], to.Locked[0]
+	case 7: // one of the others twice, the second one dropped
+		rt.Assume(len(to.Locked) == 2)
+		to.Locked[1] = (&channel.Allocation{Locked: to.Locked[:1]}).Clone().Locked[0]
 	case 1: // another sub-allocation's amount edited
 		if len(to.Locked) > 0 {
 			to.Locked[0].Bals = gen.Bals(1)
